@@ -260,8 +260,8 @@ def impl_flat(thunk, kind='array'):
     return np.asarray(v, dtype=float).ravel().tolist()
 
 
-def close(model, impl, rtol):
-    """model, impl: flat lists or ('err', code).  Agreement within rtol * max(1, max|model|)."""
+def close(model, impl, rtol, floor=1.0):
+    """model, impl: flat lists or ('err', code).  Agreement within rtol * max(floor, max|model|)."""
     if isinstance(model, tuple) or isinstance(impl, tuple):
         return model == impl
     if len(model) != len(impl):
@@ -269,7 +269,7 @@ def close(model, impl, rtol):
     mf = [float(x) for x in model]
     if not all(math.isfinite(x) for x in mf):
         return all((math.isnan(a) and math.isnan(b)) or a == b or abs(a - b) <= rtol for a, b in zip(mf, impl))
-    scale = max([1.0] + [abs(x) for x in mf])
+    scale = max([floor] + [abs(x) for x in mf])
     return all(math.isfinite(b) and abs(a - b) <= rtol * scale for a, b in zip(mf, impl))
 
 
@@ -279,7 +279,7 @@ def approx_corr(R, name, header, items, vals_of, rtol, chunk, distribution, exac
     for it, v in zip(items, vals):
         m = vals_of(v)
         R.add_distinct((name, it['input']))
-        ok = (m == it['impl']) if it.get('exact', exact) else close(m, it['impl'], rtol)
+        ok = (m == it['impl']) if it.get('exact', exact) else close(m, it['impl'], rtol, it.get('floor', 1.0))
         if not ok:
             mm = m if isinstance(m, tuple) else [float(x) for x in m][:40]
             bad.append(dict(stream=name, input=it['input'], model=mm,
@@ -362,6 +362,8 @@ def correspondence(R, ctx):
     bad += corr_qc(R, tn, rng, th)
     bad += corr_forms(R, tn, rng, th)
     bad += corr_edges(R, tn, rng, th)
+    bad += corr_histories(R, tn, rng, th)
+    bad += corr_scales(R, tn, rng, th)
     bad += corr_float(R, tn, rng, th)
     return bad
 
@@ -649,6 +651,160 @@ def corr_edges(R, tn, rng, th):
                               impl=impl_flat(lambda: tn.func_get_full(np.array(X), Ad, a, b, z=float(z))),
                               input=['func_get_full'] + inp))
     return approx_corr(R, 'box_edges', HEADER_Q, items, q_vals, 1e-9, 3, dist)
+
+
+
+# ---------------------------------------------------------------------------------------------
+# histories (argument objects reused across calls) and scales / degenerate shapes (Qc instance, exact)
+# ---------------------------------------------------------------------------------------------
+def _same(u, v):
+    if isinstance(u, list):
+        return isinstance(v, list) and len(u) == len(v) and all(_same(x, y) for x, y in zip(u, v))
+    u, v = np.asarray(u), np.asarray(v)
+    return u.dtype == v.dtype and u.shape == v.shape and u.tobytes() == v.tobytes()
+
+
+def _copy(u):
+    return [_copy(x) for x in u] if isinstance(u, list) else np.array(u, copy=True)
+
+
+def corr_histories(R, tn, rng, th):
+    """the SAME argument objects (value cores, coefficient cores, point array, bound arrays, grid-size list, dense arrays)
+    are passed to 2-3 interleaved calls of every routine; the model is pure, so every call must equal the model on the
+    saved originals, and an argument that is no longer bit-identical after a call is a mismatch of that call"""
+    items = []
+    dist = dict(calls={}, sequences=0, modified=0, note='Qc instance, exact nodes; one shared object per argument for the '
+                'whole sequence; after every call all shared objects are compared byte for byte with saved copies')
+    for rep in range(6 if th else 2):
+        d = rng.choice([2, 3]) if rep else 2
+        ns = [rng.choice([2, 3, 4]) for _ in range(d)]
+        Yq = rand_tt(rng, ns, 2)
+        a0, b0 = rand_box(rng, d)
+        sb0 = [Fr(rng.randint(1, 6), 2) for _ in range(d)]
+        Xq = [rand_point(rng, a0, b0, mode) for mode in ['in', 'edge', 'out', 'in']]
+        ms = [rng.choice([2, 3, 4]) for _ in range(d)]
+        z = Fr(rng.randint(-9, 9), 2)
+        sh = dict(Y=tt_float(Yq), X=np.array([fl(x) for x in Xq]), a=np.array(fl(a0)), b=np.array(fl(b0)),
+                  sa=np.array(fl([-v for v in sb0])), sb=np.array(fl(sb0)), ms=list(ms),
+                  Yd=np.array(dense_of(Yq).tolist(), dtype=float).reshape(ns))
+        # the coefficient tensors used as arguments: A := Y itself (any integer TT is a coefficient tensor)
+        saved = {k: _copy(v) for k, v in sh.items()}
+        qa, qb, qsa, qsb = qlist(a0), qlist(b0), qlist([-v for v in sb0]), qlist(sb0)
+        tl = tens_lit(dense_of(Yq), C.qlit)
+        desc = [ns, [G.tolist() for G in Yq], [str(v) for v in a0], [str(v) for v in b0]]
+        dist['sequences'] += 1
+        seq = [
+            ('func_int', f'f_int {qtt(Yq)}', lambda: tn.func_int(sh['Y']), 'tt'),
+            ('func_gets', f'f_gets {qtt(Yq)} {optl(ms)}', lambda: tn.func_gets(sh['Y'], sh['ms']), 'tt'),
+            ('func_int', f'f_int {qtt(Yq)}', lambda: tn.func_int(sh['Y']), 'tt'),
+            ('func_get', f'f_get {qlist2(Xq)} {qtt(Yq)} {qa} {qb} {C.qlit(z)} true',
+             lambda: tn.func_get(sh['X'], sh['Y'], sh['a'], sh['b'], z=float(z)), 'array'),
+            ('func_sum', f'f_sum {qtt(Yq)} {qa} {qb}', lambda: tn.func_sum(sh['Y'], sh['a'], sh['b']), 'array'),
+            ('func_gets', f'f_gets {qtt(Yq)} None', lambda: tn.func_gets(sh['Y']), 'tt'),
+            ('func_get', f'f_get {qlist2(Xq)} {qtt(Yq)} {qa} {qb} {C.qlit(z)} true',
+             lambda: tn.func_get(sh['X'], sh['Y'], sh['a'], sh['b'], z=float(z)), 'array'),
+            ('func_gets', f'f_gets {qtt(Yq)} {optl(ms)}', lambda: tn.func_gets(sh['Y'], sh['ms']), 'tt'),
+            ('func_sum', f'f_sum {qtt(Yq)} {qa} {qb}', lambda: tn.func_sum(sh['Y'], sh['a'], sh['b']), 'array'),
+            ('func_int_full', f'f_int_full {natl(ns)} {tl}', lambda: tn.func_int_full(sh['Yd']), 'array'),
+            ('func_get_full', f'f_get_full {qlist2(Xq)} {natl(ns)} {tl} {qa} {qb} {C.qlit(z)} true',
+             lambda: tn.func_get_full(sh['X'], sh['Yd'], sh['a'], sh['b'], z=float(z)), 'array'),
+            ('func_int_full', f'f_int_full {natl(ns)} {tl}', lambda: tn.func_int_full(sh['Yd']), 'array'),
+            ('func_gets_full', f'f_gets_full {natl(ns)} {tl} {natl(ms)}',
+             lambda: tn.func_gets_full(sh['Yd'], sh['a'], sh['b'], sh['ms']), 'array'),
+            ('func_sum_full', f'f_sum_full {natl(ns)} {tl} {qsa} {qsb}',
+             lambda: tn.func_sum_full(sh['Yd'], sh['sa'], sh['sb']), 'array'),
+            ('func_get_full', f'f_get_full {qlist2(Xq)} {natl(ns)} {tl} {qa} {qb} {C.qlit(z)} true',
+             lambda: tn.func_get_full(sh['X'], sh['Yd'], sh['a'], sh['b'], z=float(z)), 'array'),
+            ('func_sum_full', f'f_sum_full {natl(ns)} {tl} {qsa} {qsb}',
+             lambda: tn.func_sum_full(sh['Yd'], sh['sa'], sh['sb']), 'array'),
+            ('func_get', f'f_get {qlist2(Xq)} {qtt(Yq)} {qa} {qb} {C.qlit(z)} true',
+             lambda: tn.func_get(sh['X'], sh['Y'], sh['a'], sh['b'], z=float(z)), 'array'),
+        ]
+        for pos, (name, coq, thunk, rk) in enumerate(seq):
+            dist['calls'][name] = dist['calls'].get(name, 0) + 1
+            impl = impl_flat(thunk, rk)
+            changed = [k for k in sh if not _same(sh[k], saved[k])]
+            if changed:
+                dist['modified'] += 1
+                impl = ('err', f'{name} (call {pos} of the sequence) modified its argument(s) {changed}')
+                for k in changed:
+                    sh[k] = _copy(saved[k])
+            items.append(dict(coq=coq, impl=impl, input=['history', rep, pos, name] + desc))
+    return approx_corr(R, 'histories', HEADER_Q, items, q_vals, 1e-10, 12, dist)
+
+
+def corr_scales(R, tn, rng, th):
+    """exact power-of-two rescalings of the values (one core by 2^+-500, every core by 2^+-200), boxes with bounds
+    +-2^+-300 and the box [2^30, 2^30 + 2^-20]; degenerate shapes n_k = 2 everywhere, d = 1, a single point.  Pure
+    relative comparison (the floor of the tolerance is the scale factor itself)."""
+    items = []
+    dist = dict(kinds={}, families={}, note='Qc instance on exact rationals; tolerance 1e-10 * max(scale, max|model|)')
+
+    def add(fam, kind, coq, thunk, inp, floor, rk='array'):
+        dist['kinds'][kind] = dist['kinds'].get(kind, 0) + 1
+        dist['families'][fam] = dist['families'].get(fam, 0) + 1
+        items.append(dict(coq=coq, impl=impl_flat(thunk, rk), input=[fam, kind] + inp, floor=floor))
+
+    def family(fam, d, ns, Yq, a, b, sa, sb, floor, vfloor):
+        """all routines on value / coefficient tensor Yq (Fractions), box [a, b] (doubles), symmetric box [sa, sb]"""
+        Yf = [np.array([[[float(v) for v in r] for r in m] for m in G.tolist()]) for G in Yq]
+        Ad = np.array([float(v) for v in dense_of(Yq).ravel().tolist()]).reshape(ns)
+        tl = tens_lit(dense_of(Yq), C.qlit)
+        qa, qb = qlist(a), qlist(b)
+        X = [[ak + (bk - ak) * f for ak, bk in zip(a, b)] for f in (0.25, 0.5, 1.0)] + [[bk + (bk - ak) for ak, bk in zip(a, b)]]
+        Xq = [[Fr(v) for v in x] for x in X]
+        ms = [rng.choice([2, 3, 4]) for _ in range(d)]
+        z = Fr(-29, 4) * Fr(floor)
+        desc = [ns, [[[[str(v) for v in r] for r in m] for m in G.tolist()] for G in Yq], [v.hex() for v in a], [v.hex() for v in b]]
+        add(fam, 'func_int', f'f_int {qtt(Yq)}', lambda: tn.func_int(Yf), desc, floor, 'tt')
+        add(fam, 'func_gets', f'f_gets {qtt(Yq)} {optl(ms)}', lambda: tn.func_gets(Yf, ms), desc + [ms], floor, 'tt')
+        add(fam, 'func_get', f'f_get {qlist2(Xq)} {qtt(Yq)} {qa} {qb} {C.qlit(z)} true',
+            lambda: tn.func_get(np.array(X), Yf, a, b, z=float(z)), desc + [[[v.hex() for v in x] for x in X]], floor)
+        add(fam, 'func_get(single point)', f'f_get {qlist2(Xq[:1])} {qtt(Yq)} {qa} {qb} {C.qlit(z)} true',
+            lambda: tn.func_get(np.array(X[0]), Yf, a, b, z=float(z)), desc + [[v.hex() for v in X[0]]], floor)
+        add(fam, 'func_sum', f'f_sum {qtt(Yq)} {qa} {qb}', lambda: tn.func_sum(Yf, a, b), desc, vfloor)
+        if d <= 3:
+            add(fam, 'func_int_full', f'f_int_full {natl(ns)} {tl}', lambda: tn.func_int_full(Ad), desc, floor)
+            add(fam, 'func_get_full', f'f_get_full {qlist2(Xq)} {natl(ns)} {tl} {qa} {qb} {C.qlit(z)} true',
+                lambda: tn.func_get_full(np.array(X), Ad, a, b, z=float(z)), desc + [[[v.hex() for v in x] for x in X]],
+                floor)
+            add(fam, 'func_gets_full', f'f_gets_full {natl(ns)} {tl} {natl(ms)}',
+                lambda: tn.func_gets_full(Ad, a, b, ms), desc + [ms], floor)
+            if sa is not None:
+                add(fam, 'func_sum_full', f'f_sum_full {natl(ns)} {tl} {qlist(sa)} {qlist(sb)}',
+                    lambda: tn.func_sum_full(Ad, sa, sb), desc + [[v.hex() for v in sb]], vfloor)
+
+    def frac_tt(Y, scales):
+        return [np.array([[[Fr(int(v)) * sc for v in r] for r in m] for m in G.tolist()], dtype=object)
+                for G, sc in zip(Y, scales)]
+
+    for rep in range(2 if th else 1):
+        d = 2
+        ns = [rng.choice([2, 3, 4]) for _ in range(d)]
+        Y = rand_tt(rng, ns, 2)
+        unit_a, unit_b = [-1.0] * d, [1.0] * d
+        for e in (500, -500):
+            k = rng.randrange(d)
+            sc = [Fr(2) ** e if j == k else Fr(1) for j in range(d)]
+            family(f'one core * 2^{e}', d, ns, frac_tt(Y, sc), [-1.5, 0.0], [0.5, 2.0], unit_a, unit_b, 2.0 ** e, 2.0 ** e)
+        for e in (200, -200):
+            family(f'every core * 2^{e}', d, ns, frac_tt(Y, [Fr(2) ** e] * d), unit_a, unit_b, unit_a, unit_b,
+                   2.0 ** (e * d), 2.0 ** (e * d))
+        one = [Fr(1)] * d
+        for e in (300, -300):
+            h = 2.0 ** e
+            family(f'box +-2^{e}', d, ns, frac_tt(Y, one), [-h] * d, [h] * d, [-h] * d, [h] * d, 1.0, h ** d)
+        lo = 2.0 ** 30
+        family('box [2^30, 2^30 + 2^-20]', d, ns, frac_tt(Y, one), [lo] * d, [lo + 2.0 ** -20] * d, None, None, 1.0,
+               (2.0 ** -21) ** d)
+        # degenerate shapes
+        Y2 = rand_tt(rng, [2, 2, 2], 2)
+        family('n_k = 2 everywhere (d = 3)', 3, [2, 2, 2], frac_tt(Y2, [Fr(1)] * 3), [-1.0, 0.0, 2.0], [1.0, 0.5, 5.0],
+               [-1.0, -0.5, -3.0], [1.0, 0.5, 3.0], 1.0, 1.0)
+        n1 = rng.choice([2, 3, 4])
+        Y1 = rand_tt(rng, [n1], 1)
+        family('d = 1', 1, [n1], frac_tt(Y1, [Fr(1)]), [-0.5], [2.0], [-2.0], [2.0], 1.0, 1.0)
+    return approx_corr(R, 'scales_shapes', HEADER_Q, items, q_vals, 1e-10, 10, dist)
 
 
 
@@ -1201,8 +1357,226 @@ def chk_edges(tn, case):
     return fails
 
 
+def _flat(v):
+    if isinstance(v, list):
+        return np.concatenate([np.asarray(G, dtype=float).ravel() for G in v]) if v else np.zeros(0)
+    return np.asarray(v, dtype=float).ravel()
+
+
+def chk_history(tn, case):
+    """2-3 interleaved calls of every routine on the SAME argument objects: every call must give, bit for bit, what the
+    routine gives on fresh copies of the saved originals, must satisfy the property, and must leave every argument object
+    byte-identical"""
+    fails = []
+    d, ns, a, b = case['d'], case['ns'], case['a'], case['b']
+    rs = np.random.RandomState(case['seed'])
+    basis = S_BASES[case['basis']](case['gm'])
+    Xg = np.array(case['Xg'], dtype=float)
+    Cg = [rs.randint(-3, 4, size=(r1, case['gm'], r2)).astype(float)
+          for r1, r2 in zip([1] + [2] * (d - 1), [2] * (d - 1) + [1])]
+    sh = dict(Y=s_tt(case), X=np.array([x for _, x in case['points']]), a=np.array(a, dtype=float),
+              b=np.array(b, dtype=float), ms=list(case['ms']), Xg=Xg,
+              Yg=[np.einsum('rjq,ji->riq', G, basis(Xg)) for G in Cg],
+              sb=np.array([abs(v) + 0.5 for v in b]), funcs=[basis] * d)
+    sh['sa'] = -sh['sb']
+    sh['Yd'] = s_dense(sh['Y']) if d > 1 else sh['Y'][0][0, :, 0].copy()
+    arr_keys = [k for k in sh if k != 'funcs']
+    saved = {k: _copy(sh[k]) for k in arr_keys}
+    z = -7.25
+    cexp, integ = s_coef(case), s_integral(case)
+    yexp = s_ref_get(case, sh['X'], z)
+
+    def dense(v):
+        if isinstance(v, list) and v and isinstance(v[0], np.ndarray) and v[0].ndim == 3:
+            return s_dense(v) if len(v) > 1 else v[0][0, :, 0]
+        return v
+
+    def step(name, f, uses, expect=None, tol=STOL):
+        """f(args dict) -> result; compare with f(fresh copies); optional property value"""
+        try:
+            got = f(sh)
+            fresh = {k: (_copy(saved[k]) if k in saved else sh[k]) for k in sh}
+            ref = f(fresh)
+        except Exception as ex:  # noqa
+            fails.append(dict(what=f'history: {name} raised {type(ex).__name__}: {str(ex)[:120]}', input=case))
+            return None
+        g, r = _flat(got), _flat(ref)
+        if g.shape != r.shape or (g.tobytes() != r.tobytes() and not np.array_equal(g, r)):
+            fails.append(dict(what=f'history: {name} on reused argument objects differs from the same call on fresh copies',
+                              input=case, got=g.tolist()[:10], expected=r.tolist()[:10]))
+        if expect is not None:
+            fails.append(s_cmp(f'history: {name} violates the property', case, _flat(dense(got)), _flat(expect), tol))
+        changed = [k for k in saved if not _same(sh[k], saved[k])]
+        if changed:
+            fails.append(dict(what=f'history: {name} modified its argument object(s) {changed}', input=case,
+                              got=[float(np.max(np.abs(_flat(sh[k]) - _flat(saved[k])))) for k in changed],
+                              expected='arguments bit-identical after the call'))
+            for k in changed:
+                sh[k] = _copy(saved[k])
+        return got
+
+    A = step('func_int #1', lambda o: tn.func_int(o['Y']), 'Y')
+    if A is None:
+        return [f for f in fails if f]
+    fails.append(s_cmp('history: func_int #1 does not return the coefficients', case, s_dense(A) if d > 1 else A[0][0, :, 0], cexp))
+    sh['A'] = A
+    saved['A'] = _copy(A)
+    step('func_gets(new grid) #1', lambda o: tn.func_gets(o['A'], o['ms']), 'A', s_poly_unit_grid(case, case['ms']))
+    step('func_int #2', lambda o: tn.func_int(o['Y']), 'Y', dense(A), 0.0)
+    step('func_get #1', lambda o: tn.func_get(o['X'], o['A'], o['a'], o['b'], z=z), 'XAab', yexp)
+    step('func_sum #1', lambda o: [tn.func_sum(o['A'], o['a'], o['b'])], 'Aab', [integ])
+    step('func_gets(same grid)', lambda o: tn.func_gets(o['A']), 'A', dense(saved['Y']))
+    step('func_get #2', lambda o: tn.func_get(o['X'], o['A'], o['a'], o['b'], z=z), 'XAab', yexp)
+    As = step('func_int(sin) #1', lambda o: tn.func_int(o['Y'], 'sin'), 'Y')
+    if As is not None:
+        sh['As'] = As
+        saved['As'] = _copy(As)
+        step('func_gets(sin, same grid)', lambda o: tn.func_gets(o['As'], kind='sin'), 'As', dense(saved['Y']))
+        step('func_int(sin) #2', lambda o: tn.func_int(o['Y'], 'sin'), 'Y', dense(As), 0.0)
+    step('func_sum #2', lambda o: [tn.func_sum(o['A'], o['a'], o['b'])], 'Aab', [integ])
+    step('func_gets(new grid) #2', lambda o: tn.func_gets(o['A'], o['ms']), 'A', s_poly_unit_grid(case, case['ms']))
+    step('func_diff_matrix #1', lambda o: tn.func_diff_matrix(o['a'][0], o['b'][0], ns[0], 2), 'ab')
+    step('func_diff_matrix #2', lambda o: tn.func_diff_matrix(o['a'][0], o['b'][0], ns[0], 2), 'ab')
+    Ag = step('func_int_general #1', lambda o: tn.func_int_general(o['Yg'], o['Xg'], basis), 'YgXg', dense(Cg), 1e-6)
+    step('func_int_general #2', lambda o: tn.func_int_general(o['Yg'], o['Xg'], basis), 'YgXg', dense(Cg), 1e-6)
+    if Ag is not None:
+        sh['Ag'] = Ag
+        saved['Ag'] = _copy(Ag)
+        lo, hi = float(np.min(Xg)), float(np.max(Xg))
+        Xn = lo + (hi - lo) * rs.uniform(0.05, 0.95, size=(3, d))
+        sh['Xn'] = Xn
+        saved['Xn'] = _copy(Xn)
+        exp = []
+        for x in Xn:
+            q = np.ones((1, 1))
+            for k in range(d):
+                q = q @ np.einsum('rjq,j->rq', Cg[k], basis(np.array([x[k]]))[:, 0])
+            exp.append(q[0, 0])
+        for t in (1, 2):
+            step(f'func_get(custom basis) #{t}', lambda o: tn.func_get(o['Xn'], o['Ag'], lo, hi, funcs=o['funcs']), 'XnAg', exp, 1e-6)
+        step('func_int_general #3', lambda o: tn.func_int_general(o['Yg'], o['Xg'], basis), 'YgXg', dense(Cg), 1e-6)
+    if d <= 3:
+        Ad = step('func_int_full #1', lambda o: tn.func_int_full(o['Yd']), 'Yd', cexp)
+        if Ad is not None:
+            sh['Ad'] = Ad
+            saved['Ad'] = _copy(Ad)
+            step('func_get_full #1', lambda o: tn.func_get_full(o['X'], o['Ad'], o['a'], o['b'], z=z), 'XAdab', yexp)
+            step('func_int_full #2', lambda o: tn.func_int_full(o['Yd']), 'Yd', cexp)
+            step('func_gets_full', lambda o: tn.func_gets_full(o['Ad'], o['a'], o['b'], o['ms']), 'Adabms',
+                 s_poly_unit_grid(case, case['ms']))
+            sint = [s_integral(dict(case, a=sh['sa'].tolist(), b=sh['sb'].tolist()))]
+            step('func_sum_full #1', lambda o: [tn.func_sum_full(o['Ad'], o['sa'], o['sb'])], 'Adsasb', sint)
+            step('func_get_full #2', lambda o: tn.func_get_full(o['X'], o['Ad'], o['a'], o['b'], z=z), 'XAdab', yexp)
+            step('func_sum_full #2', lambda o: [tn.func_sum_full(o['Ad'], o['sa'], o['sb'])], 'Adsasb', sint)
+    step('func_get #3', lambda o: tn.func_get(o['X'], o['A'], o['a'], o['b'], z=z), 'XAab', yexp)
+    return [f for f in fails if f]
+
+
+def chk_scales(tn, case):
+    """exact power-of-two rescalings commute bit for bit with every (linear) routine; boxes with huge / tiny / offset
+    bounds give the unit-box results (scaled by the exact volume / chain-rule factors)"""
+    fails = []
+    d, ns = case['d'], case['ns']
+    unit = dict(case, a=[-1.0] * d, b=[1.0] * d)
+    Y = s_tt(case)
+    A0 = tn.func_int(Y)
+    F = np.array(case['fracs'])                        # points as fractions of the box
+    Xu = -1.0 + 2.0 * F
+    ms = case['ms']
+    z = -7.25
+
+    def eq(what, got, exp, exact=True, tol=1e-12):
+        g, e = _flat(got), _flat(exp)
+        if g.shape != e.shape:
+            fails.append(dict(what=what + ' (shape)', input=case, got=list(g.shape), expected=list(e.shape)))
+        elif exact and g.tobytes() != e.tobytes() and not np.array_equal(g, e):
+            fails.append(dict(what=what, input=case, got=g.tolist()[:10], expected=e.tolist()[:10]))
+        elif not exact:
+            sc = float(np.max(np.abs(e))) if e.size else 0.0
+            if not np.all(np.isfinite(g)) or (e.size and float(np.max(np.abs(g - e))) > tol * sc):
+                fails.append(dict(what=what, input=case, got=g.tolist()[:10], expected=e.tolist()[:10]))
+
+    def grab(what, f):
+        try:
+            return f()
+        except Exception as ex:  # noqa
+            fails.append(dict(what=f'{what} raised {type(ex).__name__}: {str(ex)[:120]}', input=case))
+            return None
+
+    base = dict(get=tn.func_get(Xu, A0, -1., 1., z=z), gets=tn.func_gets(A0, ms), sum=tn.func_sum(A0, -1., 1.))
+    if d <= 3:
+        Yd = s_dense(Y) if d > 1 else Y[0][0, :, 0]
+        Ad0 = tn.func_int_full(Yd)
+        base.update(getf=tn.func_get_full(Xu, Ad0, -1., 1., z=z), sumf=tn.func_sum_full(Ad0, -1., 1.),
+                    getsf=tn.func_gets_full(Ad0, -1., 1., ms))
+    for e, which in case['vscales']:
+        sc = [2.0 ** e if (which == 'all' or j == which) else 1.0 for j in range(d)]
+        tot = float(np.prod(sc))
+        Ys = [G * s for G, s in zip(Y, sc)]
+        tag = f'values * 2^{e} ({"every core" if which == "all" else "core %d" % which})'
+        As = grab(f'func_int, {tag}', lambda: tn.func_int(Ys))
+        if As is None:
+            continue
+        eq(f'func_int does not commute with the rescaling: {tag}', As, [G * s for G, s in zip(A0, sc)])
+        zin = z * tot
+        v = grab(f'func_get, {tag}', lambda: tn.func_get(Xu, As, -1., 1., z=zin))
+        if v is not None:
+            eq(f'func_get does not commute with the rescaling: {tag}', v, base['get'] * tot)
+        v = grab(f'func_gets, {tag}', lambda: tn.func_gets(As, ms))
+        if v is not None:
+            eq(f'func_gets does not commute with the rescaling: {tag}', v, [G * s for G, s in zip(base['gets'], sc)])
+        v = grab(f'func_sum, {tag}', lambda: tn.func_sum(As, -1., 1.))
+        if v is not None:
+            eq(f'func_sum does not commute with the rescaling: {tag}', [v], [base['sum'] * tot])
+        if d <= 3:
+            Ads = grab(f'func_int_full, {tag}', lambda: tn.func_int_full(Yd * tot))
+            if Ads is not None:
+                eq(f'func_int_full does not commute with the rescaling: {tag}', Ads, Ad0 * tot)
+                v = grab(f'func_get_full, {tag}', lambda: tn.func_get_full(Xu, Ads, -1., 1., z=zin))
+                if v is not None:
+                    eq(f'func_get_full does not commute with the rescaling: {tag}', v, base['getf'] * tot)
+                v = grab(f'func_sum_full, {tag}', lambda: tn.func_sum_full(Ads, -1., 1.))
+                if v is not None:
+                    eq(f'func_sum_full does not commute with the rescaling: {tag}', [v], [base['sumf'] * tot])
+    for name, a, b in case['boxes']:
+        X = np.array([[ak + (bk - ak) * f for ak, bk, f in zip(a, b, row)] for row in F])
+        bc = dict(case, a=a, b=b)
+        exp = s_ref_get(bc, X, z)
+        vol = float(np.prod([(bk - ak) / 2 for ak, bk in zip(a, b)]))
+        v = grab(f'func_get, box {name}', lambda: tn.func_get(X, A0, a, b, z=z))
+        if v is not None:
+            eq(f'func_get wrong on the box {name}', v, exp, False, 1e-9)
+            eq(f'func_get on the box {name} differs from the unit box at the same relative positions', v, base['get'], False)
+        v = grab(f'func_sum, box {name}', lambda: tn.func_sum(A0, a, b))
+        if v is not None:
+            eq(f'func_sum on the box {name} is not volume/2^d times the unit-box value', [v], [base['sum'] * vol], False)
+        if d <= 3:
+            v = grab(f'func_get_full, box {name}', lambda: tn.func_get_full(X, Ad0, a, b, z=z))
+            if v is not None:
+                eq(f'func_get_full wrong on the box {name}', v, exp, False, 1e-9)
+            if all(ak == -bk for ak, bk in zip(a, b)):
+                v = grab(f'func_sum_full, box {name}', lambda: tn.func_sum_full(Ad0, a, b))
+                if v is not None:
+                    eq(f'func_sum_full on the box {name} is not volume/2^d times the unit-box value', [v],
+                       [base['sumf'] * vol], False)
+        n0 = ns[0]
+        Du = tn.func_diff_matrix(-1., 1., n0, 2)
+        Db = grab(f'func_diff_matrix, box {name}', lambda: tn.func_diff_matrix(a[0], b[0], n0, 2))
+        if Db is not None:
+            l = 2.0 / (b[0] - a[0])
+            eq(f'func_diff_matrix on the box {name} is not the unit-box matrix times (2/(b-a))^k', Db,
+               [Du[0] * l, Du[1] * (l * l)], False)
+    # sine kind on a one-point grid (m = 1): sum_i A_i sin((i+1) pi/2) per mode
+    As = tn.func_int(Y, 'sin')
+    v = grab('func_gets(kind=sin, m=1)', lambda: tn.func_gets(As, 1, 'sin'))
+    if v is not None:
+        exp = [np.einsum('riq,i->rq', G, np.sin(np.pi / 2 * np.arange(1, G.shape[1] + 1)))[:, None, :] for G in As]
+        eq('func_gets(kind=sin) on the one-point grid m = 1', v, exp, False, 1e-12)
+    return fails
+
+
 S_CHECKS = dict(poly=chk_poly, diff=chk_diff, linear=chk_linear, general=chk_general, forms=chk_forms,
-                edges=chk_edges)
+                edges=chk_edges, history=chk_history, scales=chk_scales)
 
 
 def s_cases(rng, deep):
@@ -1253,6 +1627,38 @@ def s_cases(rng, deep):
             c['Xhex'] = [[float(v).hex() for v in x] for _, x in P]
             c['z'] = -7.25
             cases.append(('edges', c))
+    # histories: the same argument objects across interleaved calls
+    for rep in range(6 if deep else 2):
+        d = [2, 3, 4, 2, 3, 2][rep % 6]
+        ns = [rng.randint(2, 6) for _ in range(d)]
+        c = s_case(rng, d, ns, rng.randint(1, 2), 'asym')
+        c['points'] = s_points(rng, c)
+        c['ms'] = [rng.randint(2, 6) for _ in range(d)]
+        gm = rng.randint(1, 4)
+        gn = rng.choice([gm, gm, gm + 2])               # as many basis functions as points, or fewer
+        c.update(seed=rng.randrange(10 ** 6), basis=rng.choice(list(S_BASES)), gm=gm,
+                 Xg=[round(-1 + 2 * (j + 0.5 * rng.random()) / gn, 3) for j in range(gn)])
+        cases.append(('history', c))
+    # scales: power-of-two rescalings of the values, huge / tiny / offset boxes; degenerate shapes
+    for rep in range(5 if deep else 2):
+        d = [2, 1, 3, 2, 4][rep % 5]
+        ns = [2] * d if rep == 2 else [rng.randint(2, 6) for _ in range(d)]
+        c = s_case(rng, d, ns, rng.randint(1, 2), 'unit')
+        c['ms'] = [rng.randint(2, 6) for _ in range(d)]
+        c['fracs'] = [[rng.choice([0.25, 0.5, 0.75]) for _ in range(d)] for _ in range(3)] + [[1.0] * d, [0.0] * d]
+        c['vscales'] = [(500, rng.randrange(d)), (-500, rng.randrange(d)), (200, 'all'), (-200, 'all'), (900, 0), (-900, 0)]
+        h = 2.0 ** 300
+        c['boxes'] = [('+-2^300', [-h] * d, [h] * d), ('+-2^-300', [-1 / h] * d, [1 / h] * d),
+                      ('[2^30, 2^30+2^-20]', [2.0 ** 30] * d, [2.0 ** 30 + 2.0 ** -20] * d),
+                      ('mixed', [-h] + [2.0 ** 30] * (d - 1), [h] + [2.0 ** 30 + 2.0 ** -20] * (d - 1))]
+        if d > 2:   # the volume 2^(300 d) must stay representable
+            c['boxes'] = [bx for bx in c['boxes'] if bx[0] != '+-2^300' or d <= 3]
+        cases.append(('scales', c))
+    # degenerate shapes through the full polynomial check: n_k = 2 everywhere, d = 1 (TT and dense), rank 1
+    poly(3, [2, 2, 2], 2, 'asym')
+    poly(1, [2], 1, 'asym', tt_d1=True)
+    poly(1, [5], 2, 'sym', tt_d1=True)
+    poly(4, [2, 3, 2, 2], 1, 'asym')
     for _ in range(60 if deep else 14):
         d = rng.choice([1, 2, 2, 3, 3, 4])
         ns = [rng.randint(2, 9 if d <= 3 else 5) for _ in range(d)]
